@@ -309,7 +309,8 @@ func (hp *HTTPProxy) configureProxy() error {
 
 		if hp.config.MITMDomains != nil {
 			hp.proxy.MITMFilter = func(req *http.Request) bool {
-				return hp.config.MITMDomains.Match(req.URL.Hostname())
+				// Domain names are case-insensitive, the rules are written in lower case.
+				return hp.config.MITMDomains.Match(strings.ToLower(req.URL.Hostname()))
 			}
 		}
 		hp.proxy.MITMTLSHandshakeTimeout = hp.config.TLSServerConfig.HandshakeTimeout
